@@ -603,15 +603,16 @@ class C06(Prop):
                   "mapping nodes, string counters with saturation and the in-place decisions that read them, free_call / free_sentence / "
                   "dealloc_funp, destruct_object / destruct2, call_out() including callbacks that raise an error or destruct their "
                   "object, input_to / get_char, program_t.ref with clone / inherit / blueprint references (reference_prog, free_prog, "
-                  "deallocate_program), replace_programs(), reclaim_objects()) for all sequences of primitives: counter = number of holders, nothing "
-                  "freed while held, no dangling pointer anywhere, unreferenced values deallocated, statistics exact; tied to the "
+                  "deallocate_program), replace_programs(), reclaim_objects(), assignment to array / buffer range lvalues in both forms) for all sequences of primitives: counter = number of holders, nothing "
+                  "freed while held, no dangling pointer anywhere, unreferenced values deallocated, count and size statistics exact, the "
+                  "oracle's declarative collection step is the identity on every model state; tied to the "
                   "source by the regenerated widths, counter updates and holder sites and by running the real functions (unit style) "
                   "and the real interpreter (LPC style) and the model on the same generated histories with identical per-value "
                   "counters and driver statistics")
     level_note = ("PARTIAL: the theorems cover the counting primitives and conventions; that each of the ~250 efuns and "
-                  "~120 opcode cases follows the convention on every path is only observed (72 efun/operator groups: per-value "
+                  "~120 opcode cases follows the convention on every path is only observed (89 efun/operator groups: per-value "
                   "counters and statistics equal the model after every operation, also with an error injected at every "
-                  "instruction of 69 of them, counters back at the baseline, ASan), not proved.  The top statement "
+                  "instruction of 86 of them, counters back at the baseline, ASan), not proved.  The top statement "
                   "`judge (model trace) = []` is proved clause-wise only for the per-value comparisons (oracle_ref_clause, "
                   "oracle_freed_clause, oracle_leak_clause, oracle_string_clauses: on every model state the oracle's holder count equals "
                   "the counter / is 0 for freed values; oracle_accepts_model_state: the oracle's declarative collection step is the identity on "
@@ -629,8 +630,11 @@ class C06(Prop):
             "callbacks that raise an error or destruct their own object, clones / blueprint unloading / inherit references of "
             "programs, replace_program() over four variable layouts, reclaim_objects() with destructed objects in variables / arrays / "
             "classes / mapping keys and values / function pointer arguments, a callback that installs a new input_to, "
-            "destruct + deferred cleanup, errors thrown under live frames, 47 efun/operator groups with results dropped, an error "
-            "injected at the k-th instruction (or at every instruction in turn) of 69 efun groups and of restore_variable, "
+            "assignment to array / buffer range lvalues (temporary / shared right-hand side, same / other length, statement / value form), "
+            "input_to refused while one is pending, "
+            "destruct + deferred cleanup, errors thrown under live frames, 64 efun/operator groups with results dropped (every "
+            "lvalue-assignment form, operators and efuns taken from the opcode histogram), an error "
+            "injected at the k-th instruction (or at every instruction in turn) of 86 efun groups and of restore_variable, "
             "25 'value builder aborted half-way' groups (callbacks of map/filter/sort/unique/implode raising after k calls, "
             "aggregates and call_other arguments with a failing element, sprintf/sscanf/regexp/allocate errors, built-in "
             "sort refusing its input) and restore_variable / restore_object on valid and damaged save texts (every "
@@ -639,11 +643,13 @@ class C06(Prop):
             "cyclic containers; a case is non-trivial when it has >= 2 executed operations; distinct = distinct "
             "canonical implementation trace")
     not_covered = ["that every efun (~250) and every opcode case (~120) follows the ownership convention on every path, "
-                   "including every error path, is observed on the generated programs only (72 efun/operator groups, 69 of them "
-                   "with an error injected at every instruction), not proved; never called: shadow, command / this_player hooks, ed, sockets",
+                   "including every error path, is observed on the generated programs only (89 efun/operator groups, 86 of them "
+                   "with an error injected at every instruction), not proved; 70 of the 216 operator / one-argument-efun opcodes are never "
+                   "executed (integer arithmetic, unused encodings, simul_efun, stateful / user / file-system efuns: list in notes/C06.md)",
                    "the top statement judge (model trace) = [] is proved only clause-wise for the per-value comparisons on model states "
                    "(oracle_*_clause); the simulation between the counting machine and the declarative fixpoint machine of the oracle "
-                   "(same state after every operation) and the statistics clauses are not proved; the oracle is exercised on the model's "
+                   "(same state after every operation) is not proved, the statistics clauses only for num_arrays / num_mappings / "
+                   "tot_alloc_object / total_array_size / total_mapping_nodes (string and function-name counters are compared); the oracle is exercised on the model's "
                    "traces and on corrupted ones",
                    "func_ref of programs is not modelled as a counter (only its width is an obligation); swapping, load_binary "
                    "and total_num_prog_blocks are not modelled; replaceable() is not called",
